@@ -67,13 +67,14 @@ package ciphersuite
 // succeeded and the MAC computed over the received header fields and the plaintext equals the MAC
 // carried in the record; all slice bounds hold for every received length and padding value.
 //@ func CBC.Decrypt
-//@ watch examinePadding crypto/hmac.Equal CBC.hmac CBC.hmacCID
+//@ watch examinePadding hmac.Equal CBC.hmac CBC.hmacCID
 //@ requires args: c.readCBC != nil && c.h != nil && len(header.ConnectionID) <= 255
 //@ ensures short-rejected: len(in) < 13 ==> result1 != nil
-//@ ensures authenticated: result1 == nil && old(in[0]) != 20 ==> called("crypto/hmac.Equal") && retBool("crypto/hmac.Equal", 0)
-//@ ensures padding-checked: result1 == nil && old(in[0]) != 20 ==> called("examinePadding") && retAs("examinePadding", 1, byte(0)) == 255
-//@ ensures mac-computed: called("crypto/hmac.Equal") ==> called("CBC.hmac") || called("CBC.hmacCID")
-//@ ensures mac-compared-is-computed: called("crypto/hmac.Equal") && old(in[0]) != 25 ==> sameSlice(argBytes("crypto/hmac.Equal", 0), retBytes("CBC.hmac", 0))
+//@ ensures authenticated: result1 == nil && old(in[0]) != 20 ==> called("hmac.Equal") && retBool("hmac.Equal", 0)
+//@ ensures padding-called: result1 == nil && old(in[0]) != 20 ==> called("examinePadding")
+//@ ensures padding-checked: result1 == nil && old(in[0]) != 20 ==> retAs("examinePadding", 1, byte(0)) == 255
+//@ ensures mac-computed: called("hmac.Equal") ==> called("CBC.hmac") || called("CBC.hmacCID")
+//@ ensures mac-compared-is-computed: called("hmac.Equal") && old(in[0]) != 25 ==> sameSlice(argBytes("hmac.Equal", 0), retBytes("CBC.hmac", 0))
 //@ ensures ccs-untouched: result1 == nil && old(in[0]) == 20 ==> !called("examinePadding") && sameSlice(result0, in)
 //@ end
 
